@@ -102,11 +102,12 @@ CStart ==
   /\ cli.pc = "idle" /\ cli.ip < NCalls
   /\ LET i == cli.ip + 1  m == Meth(Call(i).m) IN
      /\ c2s' = Append(c2s, [t |-> "req", m |-> m.n, cid |-> i])
+     /\ Obs(<<"call">>)                  \* history marker: a new call starts (lets histories be compared call by call)
      /\ cli' = [cli EXCEPT !.ip = i, !.cid = i, !.inOpen = FALSE, !.outOpen = FALSE, !.closed = FALSE,
                            !.how = "none", !.logx = (Call(i).ops # <<>> /\ Call(i).ops[1] = "L"),
                            !.op = IF Call(i).ops # <<>> /\ Call(i).ops[1] = "L" THEN 1 ELSE 0,
                            !.pc = IF m.k = "unary" THEN "rd_unary" ELSE IF m.hdr THEN "rd_hdr" ELSE "sess"]
-  /\ UNCHANGED <<s2c, srv, script, obs, badResp, broken>>
+  /\ UNCHANGED <<s2c, srv, script, badResp, broken>>
 
 \* ---- unary response: exactly one complete stream; anything else is garbage on the wire
 CReadUnary ==
